@@ -3,7 +3,7 @@
    key stream generator and every one-time authenticator (so in particular
    for XSalsa20 and the Poly1305 implementation model), all lengths. *)
 From Coq Require Import ZifyNat ZifyBool.
-From Dryoc Require Import Impl.SecretBox.
+From Dryoc Require Import Spec.Poly1305 Impl.SecretBox Refine.Poly1305.
 Import SecretBoxImpl.
 Open Scope Z_scope.
 
@@ -306,3 +306,44 @@ Lemma sb_open_easy_total mbuf c n k :
 Proof. revert mbuf c n k. inst_sb open_easy_total. Qed.
 Lemma sb_open_easy_inplace_total cbuf n k : fst (open_easy_inplace_c cbuf n k) <> Panic.
 Proof. revert cbuf n k. inst_sb open_easy_inplace_total. Qed.
+
+(* ------------------------------------------------------------------ the NaCl construction *)
+
+Lemma words_bytes_wf ws : wf_bytes (Salsa20Spec.words_bytes ws).
+Proof.
+  unfold Salsa20Spec.words_bytes. induction ws as [|w ws IH]; cbn [flat_map]; [constructor|].
+  apply wf_bytes_app. split; [apply le_bytes_wf|exact IH].
+Qed.
+
+Lemma stream_blocks_wf nb k n8 ctr : wf_bytes (Salsa20Spec.stream_blocks nb k n8 ctr).
+Proof.
+  revert ctr; induction nb as [|nb IH]; intros ctr; cbn [Salsa20Spec.stream_blocks]; [constructor|].
+  apply wf_bytes_app. split; [unfold Salsa20Spec.block; apply words_bytes_wf|apply IH].
+Qed.
+
+Lemma xsalsa20_wf k n len : wf_bytes (SecretBoxImpl.xsalsa20 k n len).
+Proof.
+  unfold SecretBoxImpl.xsalsa20, Salsa20Spec.xsalsa20_stream, Salsa20Spec.salsa20_stream.
+  apply wf_firstn. apply stream_blocks_wf.
+Qed.
+
+(* crypto_secretbox as NaCl defines it: XSalsa20 key stream, first 32 bytes key the RFC 8439
+   Poly1305 of the ciphertext, the rest encrypts *)
+Definition nacl_secretbox (k n m : bytes) : bytes :=
+  let ks := SecretBoxImpl.xsalsa20 k n (32 + length m) in
+  let c := xor_into m (skipn 32 ks) in
+  Poly1305Spec.poly1305 (firstn 32 ks) c ++ c.
+
+Theorem secretbox_is_nacl cbuf m n k : wf_bytes m -> length cbuf = (length m + 16)%nat ->
+  SecretBoxImpl.easy_c cbuf m n k = Ok (nacl_secretbox k n m).
+Proof.
+  intros Hm Hc. rewrite (sb_easy_is_mac_detached cbuf m n k Hc).
+  unfold SecretBoxImpl.detached_inplace_c, SecretBoxImpl.detached_inplace, nacl_secretbox. cbn [fst snd].
+  set (ks := SecretBoxImpl.xsalsa20 k n (32 + length m)).
+  assert (Hks : wf_bytes ks) by apply xsalsa20_wf.
+  assert (Hkl : length ks = (32 + length m)%nat) by apply xsalsa20_length.
+  rewrite mac_is_rfc; [reflexivity| | |].
+  - rewrite firstn_length, Hkl. lia.
+  - now apply wf_firstn.
+  - apply xor_into_wf; [exact Hm|now apply wf_skipn].
+Qed.
